@@ -163,6 +163,7 @@ func (E *Engine) VerifyFunc(name string) (rep FuncReport) {
 		for i, n := range rnames {
 			if i < len(pe.Results) {
 				pev.Names[n] = pe.Results[i]
+				pev.Names[fmt.Sprintf("r%d", i)] = pe.Results[i]
 			}
 		}
 		for _, en := range c.Ensures {
@@ -273,6 +274,7 @@ func (E *Engine) applyContract(m *Machine, f *Frame, x *ssa.Call, fn *ssa.Functi
 		}
 		res = append(res, v)
 		names[rn[i]] = v
+		names[fmt.Sprintf("r%d", i)] = v
 	}
 	pev := &Evaluator{E: E, M: m, Names: names, Old: old, Lets: ev.Lets, Results: res}
 	for _, en := range c.Ensures {
